@@ -718,15 +718,13 @@ class DAG(nx.DiGraph):
         Principles and Techniques' - Koller and Friedman
         Page 75 Algorithm 3.1
         """
-        if observed:
-            if isinstance(observed, set):
-                observed = list(observed)
-
-            observed_list = (
-                observed if isinstance(observed, (list, tuple)) else [observed]
-            )
-        else:
+        if observed is None:
             observed_list = []
+        elif isinstance(observed, (list, tuple, set)):
+            observed_list = list(observed)
+        else:
+            # a single node (which may be falsy, e.g. the node 0)
+            observed_list = [observed]
         ancestors_list = self._get_ancestors_of(observed_list)
 
         # Direction of flow of information
